@@ -149,8 +149,13 @@ def Store.deleteNodeAt (s : Store) (id epoch : Nat) : Store × Bool :=
                 nodeLabels := aerase s.nodeLabels id, labelIdx := lidx,
                 nprops := aerase s.nprops id, pidx := pidx }, true)
 
-/-- `set_node_property`: no liveness check (as in the source). -/
+/-- does the entity have a version that is not deleted (committed or pending)? -/
+def chainAlive (c : List Ver) : Bool := chainVisibleAt c pendingEpoch
+
+/-- `set_node_property`: nothing is written for a node that does not exist (never created, rolled
+back or deleted). -/
 def Store.setNodeProp (s : Store) (id key : Nat) (v : String) : Store :=
+  if !((aget s.nodes id).map chainAlive).getD false then s else
   let old := aget (s.nodePropsOf id) key
   let pidx := match aget s.pidx key with
     | none => s.pidx
@@ -242,6 +247,7 @@ def Store.deleteEdgeAt (s : Store) (id epoch : Nat) : Store × Bool :=
                    eprops := aerase s.eprops id }, true)
 
 def Store.setEdgeProp (s : Store) (id key : Nat) (v : String) : Store :=
+  if !((aget s.edges id).map (fun e => chainAlive e.1)).getD false then s else
   { s with eprops := aset s.eprops id (aset ((aget s.eprops id).getD []) key v) }
 
 /-- `edges_from(node, Outgoing)` / `Incoming` -/
